@@ -46,6 +46,10 @@ def _cfg(tier):
             out.append({'carrier': c, 'step_ft': step, 'kw': kw, 'wind': wind, 'rlo': rlo, 'rhi': rhi, 'mode': 'range', 'rmax': rmax})
             if i % 2 == 0:
                 out.append({'carrier': c, 'step_ft': step, 'kw': kw, 'wind': wind, 'rlo': rlo, 'rhi': rhi, 'mode': 'time', 'rmax': rmax})
+            if i % 2 == 1 or shards < 3:
+                # record steps FINER than the integration step (concrete fractions of it; the range stays symbolic)
+                out.append({'carrier': c, 'step_ft': step, 'kw': kw, 'wind': wind, 'rlo': rlo, 'rhi': rhi, 'mode': 'fine', 'rmax': rmax,
+                            'fine': [0.5, 0.4, 0.13][i % 3]})
     return out
 
 
@@ -53,10 +57,10 @@ def _cfg(tier):
          must_reach=['check:integration_is_request_independent', 'check:range_row_is_interpolation_at_its_distance',
                      'check:extra_rows_are_plain_rows_plus_events', 'check:time_and_event_rows_are_integration_points'],
          bounds='carriers A (two wind segments), B (cross wind), C (30 deg, tail wind) [thorough: + A no wind / 20 deg look / finer steps / default 0.5 ft step] with '
-                'horizon K <= 12 (quick) / 40 (thorough) integration steps; symbolic range and record step (plain and extra in the same cell), symbolic time step',
+                'horizon K <= 12 (quick) / 40 (thorough) integration steps; symbolic range and record step (plain and extra in the same cell), symbolic time step, and record steps FINER than the integration step (0.5, 0.4, 0.13 of it, concrete) with symbolic range',
          assumptions=['the physics runs in true doubles; the record interpolation is compared over the reals (identical terms => equal to rounding of the one interpolation)'],
          outside=['shots other than the carriers: follows from C03.filter (a row is the interpolation at the multiple whatever the filter state) and C01.step (the step does not read the filter)'])
-def c11_fire(ctx, carrier, step_ft, kw, wind, rlo, rhi, mode, rmax):
+def c11_fire(ctx, carrier, step_ft, kw, wind, rlo, rhi, mode, rmax, fine=None):
     p = pybc()
     U = p.Unit
     TF = p.TrajFlag
@@ -66,6 +70,9 @@ def c11_fire(ctx, carrier, step_ft, kw, wind, rlo, rhi, mode, rmax):
     R = ctx.real('range_ft', rlo, rhi)
     if mode == 'range':
         S = ctx.real('record_step_ft', step_ft, max(rhi, step_ft))
+        tau = 0.0
+    elif mode == 'fine':
+        S = float(step_ft * fine)
         tau = 0.0
     else:
         S = float(max(rhi, step_ft))
